@@ -110,8 +110,27 @@ pub fn run(property: &str, tier: &str, replay: Option<Value>) -> ! {
             rep.violation(f.v);
         }
     }
-    // narrow and deep: one two-address pool, two clients, plain DISCOVER / REQUEST, two clock steps
+    // the same histories on a store written by the previous release (schema version 0) and upgraded
+    // by the server that then runs the history: every deep root, one level shallower
     let mut ll = ll;
+    {
+        let d0 = if tier == "thorough" { 3 } else { 2 };
+        match crate::ehist::longlived_histories_born(&cfgs, &ll_alpha, &deep_roots(), d0, false, true) {
+            Ok((st, found)) => {
+                for f in found {
+                    if f.property == property {
+                        rep.violation(f.v);
+                    }
+                }
+                ll.histories += st.histories;
+                ll.steps += st.steps;
+                rep.cov("long_lived_upgraded_store", json!({"roots": deep_roots().len(), "alphabet_ops": ll_alpha.ops.len(), "depth": d0, "histories": st.histories, "rule": "each root's rows are written into a store of the previous release's format (no options column, no version table); the real Pool opens it (real upgrade) and serves every history of this depth on it"}));
+            }
+            Err(e) => rep.machinery_error(format!("long-lived histories on an upgraded store: {e}")),
+        }
+    }
+    rep.cov("store_schema", if crate::ehist::real_schema_is_harness_copy() { "every store of the search is created from the SQL the real Pool wrote on a fresh file (read back from sqlite_master); it equals the harness's copy of schema version 1" } else { "every store of the search is created from the SQL the real Pool wrote on a fresh file (read back from sqlite_master); it DIFFERS from the harness's copy of schema version 1" });
+    // narrow and deep: one two-address pool, two clients, plain DISCOVER / REQUEST, two clock steps
     if property == "C01" || property == "C09" {
         let narrow = Alphabet {
             ops: build_alphabet(&cfgs, &AlphabetSpec { cfgs: &["K1"], clients: 2, addrs: &[], ticks: &[150, 301] })
